@@ -1,6 +1,7 @@
 SPECIFICATION FairSpec
 CONSTANTS
-  Nets <- MC_Quick
+  NetParams <- MC_Quick
+  MkNet <- NetOfParams
   Questions <- TheQuestion
   NsLimit = 4
   RecLimit = 4
